@@ -26,14 +26,11 @@ pub struct RunloopSc {
     pub program_text: String,
 }
 
-/// Instructions outside the quantifier of C02 (RAND-free) or whose results
-/// carry process-wide graph node ids (A and B are built one after the other).
+/// Instructions outside the quantifier of C02 (RAND-free). Graph instructions
+/// stay in: the simulator owns the node id counter (seam H4b), so A and B hand
+/// out the same ids.
 pub fn excluded(instrs: &[String]) -> Vec<String> {
-    instrs
-        .iter()
-        .filter(|n| n.contains("RAND") || n.starts_with("GRAPH."))
-        .cloned()
-        .collect()
+    instrs.iter().filter(|n| n.contains("RAND")).cloned().collect()
 }
 
 fn counter_body(r: &mut Rng, ctx: &GenCtx) -> ISpec {
@@ -67,12 +64,6 @@ pub fn generate(seed: u64, instrs: &[String]) -> RunloopSc {
     };
     cfg.eval_time_limit = *r.pick(&[0u64, 1, 50, 5000, 5000]);
     let mut state = gen_state(&mut Rng::new(derive(seed, "state")), &mut ctx);
-    state.graphs.clear();
-    for x in state.ints.iter_mut() {
-        if let IntSpec::NodeId { .. } = x {
-            *x = IntSpec::V(7);
-        }
-    }
     if r.chance(1, 2) {
         // a leaner state keeps the EXEC stack the program's own
         state.exec.clear();
